@@ -302,8 +302,9 @@ Section GenericSusp.
 End GenericSusp.
 
 (* resume_equiv_nested, for the model the correspondence evaluates: a forest F of Graphs (batch mode) — every
-   graph in any-predecessor mode, or in all-predecessor mode without branches ([batch_graph]; END has a
-   predecessor: Compile guarantees it) — nested to any depth, interrupt-before/after sets and rerun tables at
+   graph in any-predecessor mode or in all-predecessor mode ([batch_graph]: what the Graph API builds — every
+   edge carries data and control, branches carry data; END has a predecessor: Compile guarantees it) —
+   nested to any depth, interrupt-before/after sets and rerun tables at
    EVERY level (every node with a rerun table has the stamping/rebuilding pre-handler: [rerun_ok'], the
    property's proviso), input keys, state handlers — driven by [run_drive] through the store (calls without
    state modifier), against the reference run of the same forest without any interrupt configuration
@@ -312,8 +313,14 @@ End GenericSusp.
    reference run; and the lambda executions of ALL nesting levels (node, input) are, as a multiset, those of
    the reference run: nothing completed before an interrupt — raised inside a nested graph or not — is
    executed again or lost, a continued nested graph does not start over, an aborted attempt is re-run on the
-   rebuilt input. (A flat graph is the forest [g]: this is also the rerun theorem for all-predecessor graphs
-   without branches.) *)
+   rebuilt input. (A flat graph is the forest [g]: this is also the rerun theorem for all-predecessor graphs.)
+   For all-predecessor graphs the channel hypotheses of [susp_equiv] are discharged in
+   Proofs/InterruptChanDag.v and Proofs/InterruptChanDagSkip.v relative to the joint invariant of C02
+   (Proofs/DagInv.v): a task that has been handed out has not reported to any channel, and the skip
+   propagation of reportBranch computes a least fixpoint — the table after resolving completed tasks is
+   described entry by entry by the marks performed, which are the base marks plus the successor marks of the
+   least set of channels all of whose control entries are skipped or marked — so it does not depend on the
+   order of the completed tasks. *)
 Theorem resume_equiv_nested : forall F, Forall batch_graph F ->
   forall x eU0 coU eU' vU e cos e' cos' co,
     EOKe eU0 -> EOKe e ->
@@ -343,9 +350,23 @@ Proof.
   exact (conj (Forall_impl batch_graph pregel_batch wn_pregel) (conj wn_reference wn_interrupted)).
 Qed.
 
+(* non-vacuity (3), all-predecessor mode with a branch: START -> {2, 6}; node 2 selects 3 of its branch ends
+   {3, 4} (4 is skipped and the skip propagated to the join 5 of 3, 4, 6); node 6 aborts its first attempt
+   while 2 completes: the mid-step checkpoint holds the skip reports of 2; the second call completes (four
+   lambda executions on both sides); (2), below: the diamond *)
 (* non-vacuity (2), all-predecessor mode: the diamond START -> {2, 3} -> 4 -> END; node 2 aborts its first
    attempt while node 3 completes (mid-step checkpoint: 3's output folded into the channel of 4), the second
    call re-runs 2 and stops before the interrupt-before node 4, the third call completes *)
+Example resume_equiv_nested_dag_branch_hypotheses_hold :
+  Forall batch_graph wb_F /\
+  (exists coU eU v, run_drive (map strip wb_F) false [] wn_x (env0 []) = ([coU], eU) /\ co_out coU = ODone v /\
+                    List.length (trE eU) = 4%nat) /\
+  (exists co1 co2 e v,
+     run_drive wb_F true [] wn_x (env0 []) = ([co1; co2], e) /\
+     (exists i1 c1, co_out co1 = OInterrupted i1 c1 /\ ii_rerun i1 = [6]) /\
+     co_out co2 = ODone v /\ List.length (trE e) = 4%nat).
+Proof. exact (conj wb_batch (conj wb_reference wb_interrupted)). Qed.
+
 Example resume_equiv_nested_dag_hypotheses_hold :
   Forall batch_graph wd_F /\
   (exists coU eU v, run_drive (map strip wd_F) false [] wn_x (env0 []) = ([coU], eU) /\ co_out coU = ODone v /\
@@ -373,3 +394,4 @@ Print Assumptions susp_equiv.
 Print Assumptions resume_equiv_nested.
 Print Assumptions resume_equiv_nested_hypotheses_hold.
 Print Assumptions resume_equiv_nested_dag_hypotheses_hold.
+Print Assumptions resume_equiv_nested_dag_branch_hypotheses_hold.
